@@ -6,7 +6,11 @@ CONSTANTS
   EofWithData = TRUE
   ShapesA <- LocalShapes
   ShapesB <- AllShapes
-  DevDrainDeadline = FALSE
+  DevDeadlineAt = "none"
+  DevDeadlineHits = {"read"}
+  Monitor = FALSE
+  IdleMax = 2
+  DevMonNoFeed = FALSE
   DevCloseWriterFallback = FALSE
   Emit = FALSE
   Classes = {1}
@@ -27,8 +31,9 @@ CONSTANTS
   DevNoInnerFlush = FALSE
   SockQueue = FALSE
   DevQueueRefs = FALSE
+  DevSockDeadline = FALSE
   DevDropOnClose = FALSE
 SPECIFICATION BSpec
-INVARIANTS BTypeOK BPipe BComplete BReverseKeepsFlowing BNoSpuriousEnd BNoDeadline
+INVARIANTS BTypeOK BPipe BComplete BReverseKeepsFlowing BNoSpuriousEnd BNoSpuriousWriteEnd BNoDeadline BMonitorOnlyIdle
 PROPERTIES BMonotone BTermination BReverseDelivered
 CHECK_DEADLOCK FALSE
